@@ -47,15 +47,13 @@ func (t *Transaction) Transact(operations ...ovsdb.Operation) ([]*ovsdb.Operatio
 
 	if !t.Database.Exists(t.DbName) {
 		r := ovsdb.ResultFromError(fmt.Errorf("database does not exist"))
-		results[0] = &r
-		return results, updates.NewDatabaseUpdate(update, nil)
+		return firstResult(results, &r), updates.NewDatabaseUpdate(update, nil)
 	}
 
 	err := t.initializeCache()
 	if err != nil {
 		r := ovsdb.ResultFromError(err)
-		results[0] = &r
-		return results, updates.NewDatabaseUpdate(update, nil)
+		return firstResult(results, &r), updates.NewDatabaseUpdate(update, nil)
 	}
 
 	// Every Insert operation must have a UUID
@@ -70,8 +68,7 @@ func (t *Transaction) Transact(operations ...ovsdb.Operation) ([]*ovsdb.Operatio
 	operations, err = ovsdb.ExpandNamedUUIDs(operations, &t.Model.Schema)
 	if err != nil {
 		r := ovsdb.ResultFromError(err)
-		results[0] = &r
-		return results, updates.NewDatabaseUpdate(update, nil)
+		return firstResult(results, &r), updates.NewDatabaseUpdate(update, nil)
 	}
 
 	var r ovsdb.OperationResult
@@ -91,14 +88,21 @@ func (t *Transaction) Transact(operations ...ovsdb.Operation) ([]*ovsdb.Operatio
 		case ovsdb.OperationWait:
 			r = t.Wait(op.Table, op.Timeout, op.Where, op.Columns, op.Until, op.Rows)
 		case ovsdb.OperationCommit:
-			durable := op.Durable
-			r = t.Commit(*durable)
+			r = t.Commit(op.Durable != nil && *op.Durable)
 		case ovsdb.OperationAbort:
 			r = t.Abort()
 		case ovsdb.OperationComment:
-			r = t.Comment(*op.Comment)
+			comment := ""
+			if op.Comment != nil {
+				comment = *op.Comment
+			}
+			r = t.Comment(comment)
 		case ovsdb.OperationAssert:
-			r = t.Assert(*op.Lock)
+			lock := ""
+			if op.Lock != nil {
+				lock = *op.Lock
+			}
+			r = t.Assert(lock)
 		default:
 			r = ovsdb.ResultFromError(&ovsdb.NotSupported{})
 		}
@@ -165,6 +169,16 @@ func (t *Transaction) Transact(operations ...ovsdb.Operation) ([]*ovsdb.Operatio
 	}
 
 	return results, updates.NewDatabaseUpdate(update, refs)
+}
+
+// firstResult reports an error that prevents running any operation as the
+// result of the first one, or as the only result of an empty transaction
+func firstResult(results []*ovsdb.OperationResult, r *ovsdb.OperationResult) []*ovsdb.OperationResult {
+	if len(results) == 0 {
+		return append(results, r)
+	}
+	results[0] = r
+	return results
 }
 
 func (t *Transaction) applyReferenceUpdates(update updates.ModelUpdates) error {
